@@ -144,8 +144,30 @@ class BundleResult:
 
 
 def scan_assumptions(text):
-    pats = ['assume(', 'admit(', 'external_body', 'assume_specification', 'exec_allows_no_decreases_clause', 'external_fn_specification', '#[verifier::external]']
-    return {p: text.count(p) for p in pats if text.count(p)}
+    """mechanical scan of the generated file: every trusted item by name"""
+    res = {}
+    ext = re.findall(r'#\[verifier::external_body\]\s*(?:pub(?:\([^)]*\))?\s+)?(?:proof\s+)?fn\s+(\w+)', text)
+    # stubs emitted by a `cases=` split are proved by their `__case_` copies: not assumptions
+    ext = [e for e in ext if (e + '__case_') not in text]
+    if ext:
+        res['external_body fns (contract assumed, body not checked)'] = sorted(set(ext))
+    asp = re.findall(r'assume_specification(?:<[^>]*>)?\s*\[\s*([^\]]+?)\s*\]', text)
+    if asp:
+        res['assume_specification'] = sorted(set(a.strip() for a in asp))
+    for pat in ['assume(', 'admit(']:
+        n = len(re.findall(r'(?<![\w_])' + re.escape(pat), text))
+        if n:
+            res[pat] = n
+    n = text.count('exec_allows_no_decreases_clause')
+    if n:
+        res['exec_allows_no_decreases_clause (partial correctness)'] = n
+    un = re.findall(r'uninterp\s+spec\s+fn\s+(\w+)', text)
+    if un:
+        res['uninterpreted spec fns'] = sorted(set(un))
+    traits = re.findall(r'^pub trait (\w+)', text, re.M)
+    if traits:
+        res['stub traits carrying the ASSUMED manager/cache contracts'] = sorted(set(traits))
+    return res
 
 
 def verify_bundle(name, workdir, rlimit=30, canary=True):
